@@ -1,5 +1,5 @@
 (** * C10L: predict_draw is a probability, symmetric, and largest for evenly
-    matched teams (on R, under [GaussFacts]). *)
+    matched teams (on R, under [GaussCDF]). *)
 From Coq Require Import List ZArith Arith Bool Lia Permutation Reals Lra.
 From OSV Require Import Num Order Gauss Core Predict RInst.
 From OSV.Lemmas Require Import PredictDrawL.
@@ -7,7 +7,7 @@ Import ListNotations.
 
 Section OnR.
 Variables Phi Phiinv : R -> R.
-Hypothesis GF : GaussFacts Phi Phiinv.
+Hypothesis GF : GaussCDF Phi Phiinv.
 Local Hint Extern 0 (Num R) => exact (RN Phi Phiinv) : typeclass_instances.
 
 Implicit Types (beta : R) (t : list (rating R)) (teams : list (list (rating R))) (a b : R * R).
@@ -97,7 +97,7 @@ Proof.
     { split; [apply Rlt_le, Rinv_0_lt_compat; lra|].
       rewrite <- Rinv_1. apply Rinv_le_contravar; lra. }
     assert (Hx : 0 <= q * z) by nra.
-    pose proof (gf_star _ _ GF (/ q) (q * z) Hl Hx) as Hst.
+    pose proof (gc_star _ _ GF (/ q) (q * z) Hl Hx) as Hst.
     replace (/ q * (q * z)) with z in Hst by (field; lra).
     assert (HX : Phi (q * z) - / 2 <= q * / (2 * INR N)).
     { replace (Phi (q * z) - / 2) with (q * (/ q * (Phi (q * z) - / 2))) by (field; lra).
